@@ -39,6 +39,8 @@ CONSTANTS
   DropQueuedOnStop = %(drop)s
   SlowRender = %(slow)s
   RearmBeforeRender = %(rearm)s
+  SharedEndpoint = %(shared)s
+  BacklogCap = %(cap)d
 %(extra)s
 """
 INVS = "VIEW View\nINVARIANT NoBad\nINVARIANT CountMatches"
@@ -177,6 +179,24 @@ def base_scenarios():
                                         {"at": 20, "do": "release", "r": 1, "tok": "a1"}, {"at": 30, "do": "change"}], rgate=True)
     mk("sleeping-renderer-change-inside-is-the-last", [reg(1, "a1", 1000, "NON"), reg(2, "a2", 2000), {"at": 100, "do": "change"}, {"at": 103, "do": "change"}],
        reactions=[{"r": 2, "nth": n, "copy": 1, "delay": 2, "ty": "ACK"} for n in (1, 2, 3)], rdelay=8)
+    # a CON observer whose ACK is late while the resource keeps changing: every change is rendered and queued
+    # behind the open exchange; when the ACK arrives all of them, in particular the newest, go out
+    mk("slow-acker-many-changes", [reg(1, "a1", 1000)] + [{"at": 10 + i, "do": "change"} for i in range(40)],
+       reactions=[{"r": 1, "nth": 1, "copy": 2, "delay": 1, "ty": "ACK"}] + [{"r": 1, "nth": n, "copy": 1, "delay": 1, "ty": "ACK"} for n in range(2, 46)])
+    # two registrations of ONE endpoint on different tokens: one notification in flight, the sibling's queued
+    # behind it (last change); what happens to the first token must not cost the sibling its latest state
+    sib = [{"r": 1, "nth": n, "copy": 1, "delay": 20, "ty": "ACK"} for n in range(1, 7)]
+    mk("sibling-queued-then-plain-get-fresh-token", [reg(1, "a1", 1000), reg(1, "b1", 1001, at=2), {"at": 10, "do": "change"},
+                                                     reg(1, "c1", 1002, at=12, observe=None)], reactions=sib)
+    mk("sibling-queued-then-reregister-other-token", [reg(1, "a1", 1000), reg(1, "b1", 1001, at=2), {"at": 10, "do": "change"},
+                                                      reg(1, "a1", 1002, at=12)], reactions=sib)
+    mk("sibling-queued-then-rst-other-token", [reg(1, "a1", 1000), reg(1, "b1", 1001, at=2), {"at": 10, "do": "change"},
+                                               ack(1, 1, 12, "RST"), {"at": 100, "do": "change"}], reactions=sib[1:])
+    mk("sibling-queued-then-deregister-other-token-non", [reg(1, "a1", 1000), reg(1, "b1", 1001, at=2), {"at": 10, "do": "change"},
+                                                          reg(1, "a1", 1002, "NON", at=12, observe=1)], reactions=sib)
+    # a change while the FIRST rendering of a registration is still asleep, and no later change
+    mk("change-during-slow-first-rendering", [reg(1, "a1", 1000, "NON"), {"at": 3, "do": "change"}, reg(2, "a2", 2000, at=20), {"at": 23, "do": "change"}],
+       reactions=[{"r": 2, "nth": n, "copy": 1, "delay": 2, "ty": "ACK"} for n in (1, 2, 3)], rdelay=8)
     mk("shared-message-two-con-observers-one-silent", [reg(1, "a1", 1000), reg(2, "a2", 2000), {"at": 10, "do": "change", "x": "shared-ok"}, ack(2, 1, 20),
                                                        {"at": 30000, "do": "change"}], reactions=[{"r": 2, "nth": 2, "copy": 1, "delay": 5, "ty": "ACK"}, {"r": 1, "nth": 2, "copy": 1, "delay": 5, "ty": "ACK"}])
     # the Message object keeps the labels of the observer served last (iteration order of a set of objects:
@@ -194,7 +214,7 @@ def random_schedule(rng, idx):
     nobs = rng.choice([1, 2, 2, 3])
     regs = []
     for i in range(nobs):
-        r = i + 1 if (i == 0 or rng.random() < 0.8) else rng.randint(1, i)
+        r = i + 1 if (i == 0 or rng.random() < 0.6) else rng.randint(1, i)      # 40 %: another token of an earlier endpoint
         regs.append({"r": r, "tok": "%02x%02x" % (0xA0 + i, rng.randint(0, 255)), "ty": rng.choice(["CON", "CON", "NON"])})
     pm = {}
 
@@ -212,6 +232,9 @@ def random_schedule(rng, idx):
     last_req[id(first)] = s
     active = [first]
     shut = False
+    storm = idx % 10 == 3      # one schedule in ten has a storm of changes
+    stormed = False
+    fresh = [0]
     variants = ["", "", "", "", "", "", "ok", "unsucc", "last"]
     # one schedule in eight hands ONE Message object to all observers (updated_state(response)) instead of
     # one per observer: kept apart so that the two families have separate signatures
@@ -220,7 +243,9 @@ def random_schedule(rng, idx):
         variants = ["", "", "", "shared-ok", "shared-ok", "shared-unsucc", "last"]
     for _ in range(rng.randint(3, 11)):
         t += rng.choice([0, 1, 1, 7, 40, 600, 2100, 4200, 9000])
-        kinds = ["change"] * 6 + ["rereg", "dereg", "plain", "dup", "rstnth"]
+        kinds = ["change"] * 6 + ["rereg", "dereg", "plain", "dup", "rstnth", "fresh"]
+        if storm and not stormed:
+            kinds += ["storm"] * 3
         if pending:
             kinds += ["newobs"] * 4
         if rng.random() < 0.15:
@@ -236,6 +261,18 @@ def random_schedule(rng, idx):
                 steps.append({"at": t, "do": "change", "n": rng.choice([1, 1, 1, 2, 3]), "x": rng.choice(variants)})
             else:
                 steps.append({"at": t, "do": "change", "xs": [rng.choice(variants) for _ in range(rng.choice([2, 2, 3]))]})
+        elif k == "storm":
+            # 20-40 single changes (each one rendered) while, typically, an exchange with a slow acker is open
+            stormed = True
+            for _i in range(rng.randint(20, 40)):
+                steps.append({"at": t, "do": "change"})
+                t += rng.choice([0, 1, 1])
+        elif k == "fresh":
+            # an unrelated request of an observing endpoint: plain GET on a token it never used
+            o = rng.choice(active)
+            fresh[0] += 1
+            steps.append(reg(o["r"], "cc%02x" % fresh[0], nextmid(o["r"]), rng.choice(["CON", "NON"]), at=t, observe=None,
+                             path=["other"] if rng.random() < 0.5 else None))
         elif k == "newobs":
             o = pending.pop(0)
             s = reg(o["r"], o["tok"], nextmid(o["r"]), o["ty"], at=t)
@@ -278,9 +315,16 @@ def random_schedule(rng, idx):
         steps = out
     reactions = []
     for r in sorted({o["r"] for o in regs}):
-        policy = rng.choice(["mostly-ack", "mostly-ack", "mixed", "hostile"])
-        for nth in range(1, 14):
+        policy = "slow-acker" if storm else rng.choice(["mostly-ack", "mostly-ack", "mixed", "hostile"])
+        for nth in range(1, 75 if storm else 14):
             p = rng.random()
+            if policy == "slow-acker":
+                # answers everything, some of it only after a retransmission: the backlog grows, then drains
+                if p < 0.85:
+                    reactions.append({"r": r, "nth": nth, "copy": 1, "delay": rng.choice([1, 3, 40]), "ty": "ACK"})
+                else:
+                    reactions.append({"r": r, "nth": nth, "copy": 2, "delay": rng.choice([1, 60]), "ty": "ACK"})
+                continue
             if policy == "mostly-ack":
                 cut = (0.8, 0.87, 0.93)
             elif policy == "mixed":
@@ -359,12 +403,16 @@ def work(rep, args):
     seed = args.seed
     rng = random.Random(seed * 7919 + 8)
     if quick:
-        mc_confs = [dict(mr=1, nobs=2, chg=2, env=3, sil=2, maxt=4), dict(mr=1, nobs=1, chg=3, env=3, sil=2, maxt=4),
-                    dict(mr=1, nobs=2, chg=2, env=2, sil=2, maxt=4, slow="TRUE"), dict(mr=1, nobs=1, chg=3, env=2, sil=2, maxt=4, slow="TRUE")]
+        # (two tokens of ONE endpoint share exchange, backlog, time-out and transport error: the richer setting
+        # gets the larger budget; two separate endpoints hardly interact)
+        mc_confs = [dict(mr=1, nobs=2, chg=2, env=3, sil=2, maxt=4, shared="TRUE"), dict(mr=1, nobs=2, chg=2, env=2, sil=2, maxt=4),
+                    dict(mr=1, nobs=1, chg=3, env=3, sil=2, maxt=4),
+                    dict(mr=1, nobs=2, chg=2, env=2, sil=2, maxt=4, slow="TRUE", shared="TRUE"), dict(mr=1, nobs=1, chg=3, env=2, sil=2, maxt=4, slow="TRUE")]
         nsim, nslow, nrand = 90, 60, 320
     else:
-        mc_confs = [dict(mr=1, nobs=2, chg=3, env=3, sil=2, maxt=4), dict(mr=2, nobs=1, chg=3, env=3, sil=3, maxt=8),
-                    dict(mr=1, nobs=2, chg=3, env=2, sil=2, maxt=4, slow="TRUE"), dict(mr=1, nobs=1, chg=3, env=3, sil=2, maxt=4, slow="TRUE")]
+        mc_confs = [dict(mr=1, nobs=2, chg=3, env=3, sil=2, maxt=4, shared="TRUE"), dict(mr=1, nobs=2, chg=2, env=3, sil=2, maxt=4),
+                    dict(mr=2, nobs=1, chg=3, env=3, sil=3, maxt=8),
+                    dict(mr=1, nobs=2, chg=3, env=2, sil=2, maxt=4, slow="TRUE", shared="TRUE"), dict(mr=1, nobs=1, chg=3, env=3, sil=2, maxt=4, slow="TRUE")]
         nsim, nslow, nrand = 1000, 600, 5000
     phases = {}
     t0 = [time.time()]
@@ -377,7 +425,7 @@ def work(rep, args):
         # 1. exhaustive, repaired design
         mcs = []
         for i, c in enumerate(mc_confs):
-            wd.write("ObserveServer_mc%d.cfg" % i, MC_CFG % dict(dict(slow="FALSE", rearm="TRUE"), **dict(c, drop="TRUE", extra=INVS)))
+            wd.write("ObserveServer_mc%d.cfg" % i, MC_CFG % dict(dict(slow="FALSE", rearm="TRUE", shared="FALSE", cap=0), **dict(c, drop="TRUE", extra=INVS)))
             mc = tlc.run(wd, "ObserveServer.tla", "ObserveServer_mc%d.cfg" % i, timeout=600 if quick else 3000)
             tlc.need_ok_run(mc, "ObserveServer model check %s" % c)
             if mc.violated:
@@ -386,7 +434,7 @@ def work(rep, args):
         lap("model_check")
         # 1b. the pinned tree's variant: TLC's counterexample, replayed below
         cexc = dict(mr=1, nobs=1, chg=2, env=3, sil=2, maxt=4)
-        wd.write("ObserveServer_pinned.cfg", MC_CFG % dict(cexc, drop="FALSE", slow="FALSE", rearm="TRUE", extra=INVS))
+        wd.write("ObserveServer_pinned.cfg", MC_CFG % dict(cexc, drop="FALSE", slow="FALSE", rearm="TRUE", shared="FALSE", cap=0, extra=INVS))
         mcp = tlc.run(wd, "ObserveServer.tla", "ObserveServer_pinned.cfg", timeout=600)
         tlc.need_ok_run(mcp, "ObserveServer model check (pinned variant)")
         if not (mcp.violated and mcp.error_trace):
@@ -401,7 +449,7 @@ def work(rep, args):
         # C08_LatestEventuallySent false (otherwise the window "change while the renderer is suspended" is not
         # explored); its counterexample is run on the real code like any other schedule
         badc = dict(mr=1, nobs=1, chg=2, env=1, sil=2, maxt=4)
-        wd.write("ObserveServer_rearm.cfg", MC_CFG % dict(badc, drop="TRUE", slow="TRUE", rearm="FALSE", extra=INVS))
+        wd.write("ObserveServer_rearm.cfg", MC_CFG % dict(badc, drop="TRUE", slow="TRUE", rearm="FALSE", shared="FALSE", cap=0, extra=INVS))
         mcb = tlc.run(wd, "ObserveServer.tla", "ObserveServer_rearm.cfg", timeout=600)
         tlc.need_ok_run(mcb, "ObserveServer model check (re-arm-after-render variant)")
         badset = mcb.error_trace[-1][1].get("obs", {}).get("bad", ()) if mcb.error_trace else ()
@@ -409,13 +457,23 @@ def work(rep, args):
             raise MachineryError("the re-arm-after-render variant of the model is expected to violate C08_LatestEventuallySent; TLC says %s %s" % (mcb.violated, sorted(badset)))
         rearm_sched, rearm_exp, rearm_tlast = behaviour_to_schedule(list(mcb.error_trace), 1, slow=True)
         rearm_sched["name"] = "model-counterexample-rearm-after-render"
+        # 1d. known-bad variant: a bounded backlog that drops the newest notification when it is full
+        capc = dict(mr=1, nobs=1, chg=3, env=1, sil=2, maxt=4)
+        wd.write("ObserveServer_cap.cfg", MC_CFG % dict(capc, drop="TRUE", slow="FALSE", rearm="TRUE", shared="FALSE", cap=1, extra=INVS))
+        mcc = tlc.run(wd, "ObserveServer.tla", "ObserveServer_cap.cfg", timeout=600)
+        tlc.need_ok_run(mcc, "ObserveServer model check (bounded-backlog variant)")
+        capset = mcc.error_trace[-1][1].get("obs", {}).get("bad", ()) if mcc.error_trace else ()
+        if not any(str(c).startswith("C08_LatestEventuallySent") for c in capset):
+            raise MachineryError("the bounded-backlog variant of the model is expected to violate C08_LatestEventuallySent; TLC says %s %s" % (mcc.violated, sorted(capset)))
         lap("pinned_variant")
         # 2. behaviours of the variant the tree conforms to
         simc = dict(mr=1, nobs=2, chg=3, env=6, sil=3, maxt=8)
         model = []
-        for tag, slow, num in (("fast", False, nsim), ("slow", True, nslow)):
+        for tag, slow, shared, num in (("fast", False, False, nsim // 2), ("shared", False, True, nsim - nsim // 2),
+                                       ("slow", True, False, nslow // 2), ("slowshared", True, True, nslow - nslow // 2)):
             wd.write("ObserveServer_sim_%s.cfg" % tag, MC_CFG % dict(simc, drop="FALSE" if pinned_like else "TRUE",
-                                                                       slow="TRUE" if slow else "FALSE", rearm="TRUE", extra=""))
+                                                                       slow="TRUE" if slow else "FALSE", rearm="TRUE",
+                                                                       shared="TRUE" if shared else "FALSE", cap=0, extra=""))
             simdir = wd.file("sim_" + tag)
             os.makedirs(simdir)
             sim = tlc.run(wd, "ObserveServer.tla", "ObserveServer_sim_%s.cfg" % tag, workers=1, timeout=900,
@@ -449,6 +507,7 @@ def work(rep, args):
             for i, v in zip(idxs, vs):
                 verdicts[i] = v
         lap("trace_validation")
+        max_obs = max([e["obs"] for res in results for e in res["events"] if e["k"] == "tx"] + [0])
         clause_hits = {}
         causes_seen = {}
         rstnon = 0
@@ -506,6 +565,9 @@ def work(rep, args):
                 "model_behaviours_reproduced_exactly": len(model) - ndrift,
                 "targeted_scenarios": [b["name"] for b in bases],
                 "random_schedules": len(rands),
+                "random_schedules_with_a_storm_of_changes": len([x for x in rands if len([y for y in x["steps"] if y["do"] == "change"]) >= 20]),
+                "largest_observe_value_on_the_wire": max_obs,
+                "bounded_backlog_variant_check": dict(capc, violated=mcc.violated, states=mcc.distinct, clauses=sorted(str(c) for c in capset)),
                 "end_causes_exercised_on_impl": dict(sorted(causes_seen.items())),
                 "resets_to_non_notifications_recorded_not_judged": rstnon,
                 "clauses_false_somewhere": clause_hits,
@@ -523,6 +585,8 @@ def work(rep, args):
             "self-describing payloads of the test resource (state number, registration number) identify what a notification was rendered from and for whom",
             "a confirmable notification sent MAX_RETRANSMIT+1 times and never answered has timed out once twice the last retransmission gap has passed (back-off = C03); MAX_RETRANSMIT >= 1",
             "observers do not reuse a message ID for a different request; repeated request datagrams arrive within EXCHANGE_LIFETIME",
+            "registrations are short: at most about 75 notifications per registration are generated (largest Observe value of this run: coverage.largest_observe_value_on_the_wire), so faults of the Observe counter that need more (wrap-around at 2^16 / 2^24, clamping) are out of reach of this check",
+            "the resource's set of observations is replaced by a container with the same interface that iterates in registration order (reproducible serving order)",
             "a Reset answering a non-confirmable notification is recorded, not judged (DESIGN section 10); retransmissions of an already sent notification are not 'further notifications'",
         ]
 
